@@ -702,3 +702,96 @@ pub fn churn(args: &[String], out: &mut Sink) {
         let _ = std::fs::remove_file(format!("{d}.progress"));
     }
 }
+
+
+fn copy_db_files(src: &str, dst: &str) -> std::io::Result<()> {
+    std::fs::create_dir_all(dst)?;
+    for ent in std::fs::read_dir(src)? {
+        let ent = ent?;
+        let name = ent.file_name().to_string_lossy().to_string();
+        if name == "meta" || name == "ln" || name == "bbn" || name == "ht" || name == "wal" || name.starts_with("rollback.") {
+            std::fs::copy(ent.path(), format!("{dst}/{name}"))?;
+        }
+    }
+    Ok(())
+}
+
+/// C17: for every state-changing operation of generated histories, snapshot the directory BEFORE the
+/// operation, record the ordered I/O events the operation issues, and hand both to the Lean placement
+/// monitor (`placement <snapshot>`), which decodes the snapshot independently and checks that nothing
+/// the previous state references is overwritten / truncated / unlinked before the meta page is written.
+pub fn placement(args: &[String], out: &mut Sink) {
+    let seed: u64 = arg(args, "--seed").and_then(|s| s.parse().ok()).unwrap_or(1);
+    let cases: usize = arg(args, "--cases").and_then(|s| s.parse().ok()).unwrap_or(4);
+    let focus = arg(args, "--focus").unwrap_or("general".into());
+    let nops: usize = arg(args, "--nops").and_then(|s| s.parse().ok()).unwrap_or(12);
+    let scale: usize = arg(args, "--scale").and_then(|s| s.parse().ok()).unwrap_or(1);
+    let outdir = arg(args, "--out").unwrap_or("work/out".into());
+    let big = args.iter().any(|a| a == "--big");
+    let _ = std::fs::create_dir_all(&outdir);
+    let root = std::fs::canonicalize(&outdir).map(|p| p.to_string_lossy().to_string()).unwrap_or(outdir.clone());
+    let _ = std::fs::remove_dir_all(format!("{root}/psnap"));
+    let pid = std::process::id();
+    let weights = weights_for(&focus);
+    for case in 0..cases {
+        let (r, cfg) = gen_case(seed, case, &focus);
+        let dir = format!("/dev/shm/nomt-verif-db-{pid}-{seed}-{case}-place");
+        iohook::install(Mode::Observe, Loss::None, None);
+        let mut scratch = Sink::new();
+        let lines: std::sync::Arc<std::sync::Mutex<Vec<(String, String, usize)>>> = Default::default();
+        {
+            let lines = lines.clone();
+            let dir = dir.clone();
+            let root = root.clone();
+            let mut start_idx = 0u64;
+            let mut snap = String::new();
+            let mut n = 0usize;
+            *crate::db::OP_OBSERVER.lock().unwrap() = Some(Box::new(move |op: &crate::db::OpInfo<'_>| {
+                if op.starting {
+                    snap = format!("{root}/psnap/c{case}_{n}");
+                    n += 1;
+                    start_idx = iohook::begins();
+                    if copy_db_files(&dir, &snap).is_err() {
+                        snap.clear();
+                    }
+                } else if !snap.is_empty() {
+                    let tr = iohook::trace_lines_since(start_idx);
+                    let nev = tr.len();
+                    let _ = std::fs::write(format!("{snap}/trace.txt"), tr.join("\n") + "\n");
+                    lines.lock().unwrap().push((snap.clone(), op.what.to_string(), nev));
+                }
+            }));
+        }
+        {
+            let mut rr = r.clone();
+            let nsteps = rr.range(nops / 2, nops);
+            let mut e = Engine::new(rr, &mut scratch, cfg.clone(), dir.clone(), big);
+            if scale > 1 {
+                e.scale = scale;
+                let extra = gen_keyset(&mut e.rng, 40 * scale);
+                e.pool.extend(extra);
+            }
+            for _ in 0..nsteps {
+                e.step(&weights);
+            }
+            e.finish();
+        }
+        *crate::db::OP_OBSERVER.lock().unwrap() = None;
+        let _ = iohook::uninstall();
+        for f in scratch.oracle_failures.iter() {
+            out.fail(format!("(placement history) {f}"));
+        }
+        out.mark_case(format!("case {case} placement focus={focus} cfg: {}", cfg.describe()));
+        for (snap, what, nev) in lines.lock().unwrap().iter() {
+            out.line(format!("placement {snap}"), "skip".into());
+            out.count(&format!("ops_{what}"));
+            out.add("events_traced", *nev as u64);
+            if *nev > 0 {
+                out.nontrivial(&format!("{snap}"));
+            }
+            if out.samples.len() < 3 {
+                out.samples.push(format!("placement {snap} [{what}, {nev} events]"));
+            }
+        }
+    }
+}
